@@ -42,7 +42,7 @@ func init() {
 													}
 													cfg := Cfg{Mods: []string{"auth", "otp", "logout"}, Totp: true, Recovery: true, LockAfter: 3, LockWindow: 300,
 														LockDuration: 3600, ExpireAfter: 600, RecoverDur: 3600, Mount: mount, API: api,
-														LogoutMethod: "POST", MailMethod: "POST", Whitelist: []string{}, Providers: []string{}, Preserve: []string{},
+														LogoutMethod: "POST", MailMethod: "POST", Whitelist: []string{}, Providers: []string{}, Preserve: []string{}, OneTime: true,
 														Unauthed: map[string]string{"n": "notfound", "r": "redirect", "u": "unauthorized"}[fail]}
 													sess := map[string]string{}
 													if uid == "known" {
